@@ -309,6 +309,30 @@ func Unlock(site string, x any) {
 	case s.wakeRoot <- struct{}{}:
 	default:
 	}
+	unlockYield(s, l)
+}
+
+// unlockYield: an optional scheduling point right after a release. Code that goes on using shared
+// state after it has dropped the lock (a lock scope that ends too early) is otherwise one atomic
+// step with the critical section for this scheduler.
+func unlockYield(s *Sched, l *lockState) {
+	if !s.UnlockYield || s.aborting.Load() {
+		return
+	}
+	g := curGID()
+	if g == s.rootGID {
+		return
+	}
+	if s.Suppress != nil && s.Suppress() {
+		return
+	}
+	s.mu.Lock()
+	t := s.tasks[g]
+	s.mu.Unlock()
+	if t == nil || t.anon {
+		return
+	}
+	s.park(g, &Op{Kind: "unlocked", Site: l.site})
 }
 
 // RLock replaces X.RLock().
@@ -387,6 +411,7 @@ func RUnlock(site string, x any) {
 	case s.wakeRoot <- struct{}{}:
 	default:
 	}
+	unlockYield(s, l)
 }
 
 // Held reports whether the emulated lock behind x is held by anyone (root helper).
